@@ -119,14 +119,19 @@ def rule_access(ctx: Ctx):
     rep.floor("C10.access", "accesses of the model's state field", n_sites, 2)
     fi = ctx.fn("State.for_instance")
     for p in ctx.paths(fi, inline=None, exc_edges="none"):
-        if p.kind == "return":
-            v = xshow(p.value, p.events)
-            rep.check(v == "cache[self]", "C10.access", fi.loc(), "the per-instance view of a state is cached per state definition", fi.key, f"return {v}")
+        stored = None
         for e in p.of("store"):
             if e.x.get("subscript"):
+                stored = e
                 v = xshow(e.x["value"], p.events)
                 rep.check(show(e.term) == "cache[self]" and v == "InstanceState(self, machine)", "C10.access", e.loc(),
                           "the cached view wraps this state for this machine", fi.key, norm_stmt(e.node))
+        if p.kind == "return":
+            v = xshow(p.value, p.events)
+            just_stored = stored is not None and show(p.value) == show(stored.x["value"])
+            rep.check(v == "cache[self]" or just_stored, "C10.access", fi.loc(),
+                      "the per-instance view of a state is cached per state definition (the remembered one, or the one just created and remembered)",
+                      fi.key, f"return {v}")
 
 
 def rule_mapping(ctx: Ctx):
